@@ -21,6 +21,9 @@ already-seen array object is exercised; the step prefactor is real_t in the firs
 the second execution of each pair (bitwise agreement demanded); two SSP-RK3 shapes per shard get a SIBLING kernel object
 (same shape and precision, its own mid-step buffer) followed by the first kernel object again.
 
+Self-test of the added dimension: diffusion_flux_2d.py:70 ghost-ring reset of the flux performed only the first time an array object (id) is seen (sed) ->
+VIOLATION diffusion-euler-depends-on-buffer-garbage.
+
 Noise floors (measured headroom >= 10x, see ``max err/tol`` in the evidence):
   Euler, same prefactor            8 eps (|f|max + |flux|max)               one rounding of the sum
   advection through inv_dx = 1     16 eps (|f|max + |dt/dx| 2d (4/3) max|f u|)   face-flux magnitudes
